@@ -130,6 +130,8 @@ func opPcoUnm(a []string) string {
 
 func oracleC16(op string, a []string) string {
 	switch op {
+	case "pcobuild":
+		return oraclePcoBuild(a)
 	case "psi2arr":
 		b, ok := unhex(a[0])
 		if !ok || len(b) != 2 {
@@ -223,6 +225,7 @@ func oracleC16(op string, a []string) string {
 }
 
 func genPco(g *Gen, w *bufio.Writer) {
+	genPcoBuild(g, w, g.N)
 	// all 65 536 bitmaps both ways (cheap)
 	for v := 0; v < 65536; v++ {
 		fmt.Fprintf(w, "psi2arr %02x%02x\n", v&0xff, v>>8)
